@@ -220,6 +220,12 @@ func getESDTNFTTokenOnSender(
 	if nonce == 0 && esdtData.TokenMetaData != nil {
 		return nil, ErrOnlyFungibleTokensHaveBalanceTransfer
 	}
+	// ... and it must be the NFT that was asked for: the entry of (tokenID', nonce') sits under the
+	// same key whenever tokenID'||nonce' has the bytes of tokenID||nonce, and it is saved back under
+	// the key of its own recorded nonce
+	if nonce > 0 && esdtData.TokenMetaData.Nonce != 0 && esdtData.TokenMetaData.Nonce != nonce {
+		return nil, ErrNFTTokenDoesNotExist
+	}
 
 	return esdtData, nil
 }
